@@ -6,7 +6,9 @@ CONSTANTS
   MaxStmts = 4
   MaxNotes = 10
   MaxDirs = 5
-  WordCounts = {1, 2, 5}
+  MaxNons = 3
+  WordCounts = {2, 5, 20}
+  GenBlockTypes = {"b", "c", "g", "i", "s", "t", "u", "w"}
+  Rich = TRUE
   Phased = TRUE
-INVARIANT WellFormed
 CHECK_DEADLOCK FALSE
